@@ -80,6 +80,15 @@ fn eval_line(ctx: &mut Ctx, line: &str) -> String {
 }
 
 fn main() {
+    // everything runs on a thread with a very large stack: values nested thousands of levels deep are part of
+    // the input space (the codec, serde and the harness's own s-expression code all recurse per level)
+    let t = std::thread::Builder::new().stack_size(4 << 30).spawn(real_main).expect("spawn");
+    if t.join().is_err() {
+        std::process::exit(101);
+    }
+}
+
+fn real_main() {
     std::panic::set_hook(Box::new(|_| {}));
     guard::install_handlers();
     let args: Vec<String> = std::env::args().collect();
